@@ -53,11 +53,14 @@ def prefix_for(n, directory=None):
     return os.path.join(directory or BUILD, "u%d" % n)
 
 
+TRANS_MOD = {2: 1, 3: 1, 4: 1, 5: 1, 6: 256}
+
+
 def build_all(directory=None, ns=(2, 3, 4, 5, 6)):
     os.makedirs(directory or BUILD, exist_ok=True)
     res = {}
     for n in ns:
-        res[n] = run_helper(n, prefix_for(n, directory))
+        res[n] = run_helper(n, prefix_for(n, directory), trans_mod=TRANS_MOD[n])
         with open(prefix_for(n, directory) + ".meta", "w") as f:
             f.write("%d %d %d %d\n" % res[n])
     return res
@@ -73,9 +76,11 @@ def scratch_dir():
 class StateGraph:
     """Loaded output of the C helper for one n."""
 
-    def __init__(self, n, directory=None, fresh=False, trans_mod=0):
+    def __init__(self, n, directory=None, fresh=False, trans_mod=None):
         self.n = n
         self._tmp = None
+        if trans_mod is None:
+            trans_mod = TRANS_MOD[n]
         if fresh:
             self._tmp = scratch_dir()
             directory = self._tmp
@@ -206,3 +211,126 @@ def python_transitions(n, keys):
         gens = M.key_to_gens(key, n)
         out.append([M.canon_unsigned([M.conj(p, g) for p in gens], n) for g in gates])
     return out
+
+
+# ---------------------------------------------------------------------------- self-check (DESIGN section 4, link 2)
+
+def _rederive(payload):
+    n, keys = payload
+    return python_transitions(n, keys)
+
+
+def selfcheck(g, ctx=None, stride=1):
+    """Cross-check the C helper's output against closed formulas, vectorised validity
+    tests and the independent Python model.  Raises HarnessError on any disagreement.
+    Returns the number of transition rows re-derived with the Python model."""
+    from . import core
+    n, N = g.n, g.N
+    if N != M.N_GROUPS[n]:
+        raise core.HarnessError("n=%d: %d states, closed formula says %d" % (n, N, M.N_GROUPS[n]))
+    st = g.states.astype(np.uint32)
+    # distinct
+    packed_hi = st[:, 0].astype(np.uint64)
+    packed = np.zeros(N, dtype=np.uint64)
+    for c in range(1, n):
+        packed = (packed << np.uint64(12)) | st[:, c].astype(np.uint64)
+    uniq = np.unique(np.stack([packed_hi, packed], axis=1), axis=0)
+    if len(uniq) != N:
+        raise core.HarnessError("n=%d: duplicate states in the enumeration" % n)
+    # isotropic: symplectic product of every pair of rows is 0
+    mask = (1 << n) - 1
+    x = st & mask
+    z = st >> n
+
+    def par(v):
+        v = v ^ (v >> 8)
+        v = v ^ (v >> 4)
+        v = v ^ (v >> 2)
+        v = v ^ (v >> 1)
+        return v & 1
+    for i in range(n):
+        for j in range(i + 1, n):
+            if np.any(par(x[:, i] & z[:, j]) ^ par(z[:, i] & x[:, j])):
+                raise core.HarnessError("n=%d: non-commuting rows in a state" % n)
+    # RREF with rank n: leading bits strictly decreasing, pivot column clear elsewhere
+    if np.any(st == 0):
+        raise core.HarnessError("n=%d: zero row" % n)
+    lead = np.floor(np.log2(st.astype(np.float64))).astype(np.uint32)
+    for i in range(n - 1):
+        if np.any(lead[:, i] <= lead[:, i + 1]):
+            raise core.HarnessError("n=%d: rows not in echelon order" % n)
+    for i in range(n):
+        for j in range(n):
+            if i != j and np.any((st[:, j] >> lead[:, i]) & 1):
+                raise core.HarnessError("n=%d: pivot column not reduced" % n)
+    # transitions re-derived with the Python model
+    if g.trans is None:
+        raise core.HarnessError("n=%d: no transition dump to cross-check" % n)
+    rows = list(range(0, N, g.trans_mod))
+    if len(rows) != g.trans.shape[0]:
+        raise core.HarnessError("n=%d: transition dump has %d rows, expected %d" % (n, g.trans.shape[0], len(rows)))
+    sel = list(range(0, len(rows), stride))
+    keys = [g.key(rows[k]) for k in sel]
+    parts = core.pmap(_rederive, [(n, c) for c in core.chunk_list(keys, 64)])
+    derived = [r for part in parts for r in part]
+    P0 = 2 * n
+    for k, succ in zip(sel, derived):
+        i = rows[k]
+        for gi, key in enumerate(succ):
+            t = int(g.trans[k, gi])
+            if g.key(t) != key:
+                raise core.HarnessError("n=%d: C helper and Python model disagree on state %d gate %r" % (n, i, g.gates[gi]))
+            if gi < P0:
+                if g.comp[t] != g.comp[i]:
+                    raise core.HarnessError("n=%d: local gate leaves the component (state %d)" % (n, i))
+            elif not g.arcs[gi - P0, g.comp[i], g.comp[t]]:
+                raise core.HarnessError("n=%d: quotient arc missing (state %d gate %r)" % (n, i, g.gates[gi]))
+    # BFS tree: parent's transition under pgate leads to the child (checked on dumped rows)
+    rowpos = {r: k for k, r in enumerate(rows)}
+    for i in range(1, N, max(1, N // 5000)):
+        p = int(g.parent[i])
+        if p in rowpos and int(g.trans[rowpos[p], int(g.pgate[i])]) != i:
+            raise core.HarnessError("n=%d: BFS tree edge inconsistent at state %d" % (n, i))
+    if ctx is not None:
+        ctx.count("model_transition_rows_rederived", len(sel))
+        ctx.count("model_states_validated", N)
+    return len(sel)
+
+
+def full_recheck(n, ctx=None):
+    """Thorough: rebuild the graph from scratch with a full transition dump, recompute
+    the components with scipy and compare everything with the build/ artefacts."""
+    from . import core
+    from scipy.sparse import coo_matrix
+    from scipy.sparse.csgraph import connected_components
+    ref = StateGraph(n)
+    fresh = StateGraph(n, fresh=True, trans_mod=1)
+    try:
+        for name in ("states", "parent", "pgate", "comp", "arcs"):
+            if not np.array_equal(getattr(ref, name), getattr(fresh, name)):
+                raise core.HarnessError("n=%d: rebuilt %s differs from build/ artefact" % (n, name))
+        N, G = fresh.N, fresh.G
+        src = np.repeat(np.arange(N, dtype=np.int64), 2 * n)
+        dst = fresh.trans[:, :2 * n].astype(np.int64).reshape(-1)
+        ncomp, labels = connected_components(coo_matrix((np.ones(len(src), dtype=np.int8), (src, dst)), shape=(N, N)),
+                                             directed=False)
+        if ncomp != fresh.K:
+            raise core.HarnessError("n=%d: scipy finds %d components, C helper %d" % (n, ncomp, fresh.K))
+        # same partition: the map C label -> scipy label must be a bijection
+        pairs = np.unique(np.stack([fresh.comp.astype(np.int64), labels.astype(np.int64)], axis=1), axis=0)
+        if len(pairs) != ncomp:
+            raise core.HarnessError("n=%d: component partitions differ" % n)
+        # arcs recomputed with numpy
+        for k in range(n * (n - 1) // 2):
+            t = fresh.trans[:, 2 * n + k]
+            arc = np.zeros((fresh.K, fresh.K), dtype=np.uint8)
+            arc[fresh.comp, fresh.comp[t]] = 1
+            if not np.array_equal(arc, fresh.arcs[k]):
+                raise core.HarnessError("n=%d: quotient arcs differ for pair %d" % (n, k))
+        if ctx is not None:
+            ctx.count("model_full_rebuild_states", N)
+            ctx.count("model_full_rebuild_transitions", N * G)
+        ntrans = N * G
+    finally:
+        fresh.close()
+    return ntrans
